@@ -191,11 +191,11 @@ pub fn wcase(id: String, scn: Scn) -> WCase {
 
 /// Runs one world case for `prop` with the given oracles; `post` adds property-specific offline
 /// checks and decides non-triviality.
-pub fn run_world_case(c: &WCase, o: Oracles, prop: &'static str, post: &dyn Fn(&Core, &mut Outcome)) -> Outcome {
+pub fn run_world_case(c: &WCase, o: Oracles, prop: &'static str, accept: &[&str], post: &dyn Fn(&Core, &mut Outcome)) -> Outcome {
     let w = run_scn(&c.scn, o);
     let mut out = Outcome::new(world_desc(&w));
     absorb_obs(&mut out, &w);
-    take_viols(&mut out, &w, prop, &[]);
+    take_viols(&mut out, &w, prop, accept);
     out.sig = world_sig(&w);
     post(&w, &mut out);
     if !matches!(out.verdict, Verdict::Held) {
